@@ -7,7 +7,7 @@ import random
 import vlib
 
 BASE = dict(Uris='{"u1"}', Texts='{"t1","t2"}', MaxMsgs=3, MsgKinds='{"open","change","close"}', MaxCfg=0,
-            MaxDisk=0, OnDisk='{}', EnableReindex='FALSE', InitOpen='{}')
+            MaxDisk=0, OnDisk='{}', EnableReindex='FALSE', InitOpen='{}', Outside='{}', CfgAddsLib='FALSE')
 
 CONFIGS = {
     # name: (overrides, max schedules replayed quick, thorough)
